@@ -110,6 +110,8 @@ def collect_information(exprs):  # noqa: C901
                 continue
             sort = cmd[1]
             for constr in cmd[2]:
+                if constr.is_leaf() or len(constr) == 0:
+                    continue
                 __datatypes_constructors[constr[0]] = sort
                 if len(constr) == 1:
                     __datatypes_constants.setdefault(sort, [])
@@ -139,6 +141,8 @@ def collect_information(exprs):  # noqa: C901
                         f'Ignore "{sorts[id]}" as it lacks a constructor')
                     continue
                 for constr in cmd[2][id]:
+                    if constr.is_leaf() or len(constr) == 0:
+                        continue
                     __datatypes_constructors[constr[0]] = sorts[id]
                     if len(constr) == 1:
                         __datatypes_constants.setdefault(sorts[id], [])
